@@ -274,6 +274,17 @@ pub struct Merged {
 }
 
 /// Spawns `n` shard child processes of this binary and merges their outputs.
+/// removes the private scratch directory of a shard process once the parent is done with it (a
+/// shard killed by the watchdog cannot do it itself)
+struct Tidy(Option<PathBuf>);
+impl Drop for Tidy {
+    fn drop(&mut self) {
+        if let Some(p) = &self.0 {
+            let _ = std::fs::remove_dir_all(p);
+        }
+    }
+}
+
 pub fn run_shards(id: &str, tier: &str, seed: u64, n: u32, cases_per_shard: u32, exclude: &BTreeSet<String>, watchdog: Duration) -> Result<Merged, String> {
     let exe = std::env::current_exe().map_err(|e| e.to_string())?;
     let outdir = scratch_root().join("out");
@@ -314,6 +325,8 @@ pub fn run_shards(id: &str, tier: &str, seed: u64, n: u32, cases_per_shard: u32,
         timed_out_shards: 0,
     };
     for (i, mut child, out) in kids {
+        let child_scratch = scratch_root().parent().map(|b| b.join(format!("fjv-{}", child.id())));
+        let _tidy = Tidy(child_scratch);
         loop {
             match child.try_wait() {
                 Ok(Some(st)) => {
